@@ -318,6 +318,24 @@ Proof.
   pose proof own_facts_ok as H. rewrite forallb_forall in H. apply H. exact Hf.
 Qed.
 
+(* ---------------- holders of pooled objects ---------------- *)
+(* every function of zapcore that calls getSliceEncoder / putSliceEncoder (regenerated census) is one of the
+   functions whose event order is checked above, takes and returns one collector, and stores no reference
+   to the collector's elems anywhere (decided by computation on the regenerated facts) *)
+Lemma pool_holders_ok : forallb (holder_ok (List.map of_fn own_facts)) pool_holders = true.
+Proof. vm_compute. reflexivity. Qed.
+
+Lemma pool_holders_known : forall h, In h pool_holders ->
+  (exists f, In f own_facts /\ of_fn f = (ph_fn h ++ "/" ++ ph_var h)%string /\ disc_ok (of_events f) = true) /\
+  ph_gets h = 1 /\ ph_puts h = 1 /\ ph_escapes h = [].
+Proof.
+  intros h Hh. pose proof pool_holders_ok as H. rewrite forallb_forall in H.
+  destruct (holder_ok_sound _ _ (H h Hh)) as [A [B [C D]]].
+  split; [|repeat split; assumption].
+  apply in_map_iff in A. destruct A as [f [Hf Hin]]. exists f. split; [exact Hin|]. split; [exact Hf|].
+  pose proof own_facts_ok as O. rewrite forallb_forall in O. apply O. exact Hin.
+Qed.
+
 (* ---------------- family-wide state facts ---------------- *)
 (* no method of the encoders (nor putJSONEncoder / addFields) assigns through the *EncoderConfig its
    whole logger family shares, and the methods that run on a logger's long-lived encoder do not
